@@ -234,15 +234,20 @@ func c13Disturb() {
 		plush.BuffaloRenderer(binds, nil, nil)
 		plush.Render(binds, plush.NewContextWithOuter(nil, nil))
 	}()
+	// a script (it prints nothing): what RunScript gives its script is gone when it returns
+	func() {
+		defer func() { recover() }()
+		plush.RunScript(`let leakprobe = "S"`, plush.NewContext())
+	}()
 }
 
 // c13LeakProbe: names bound by earlier renders (on contexts of their own) are unknown to a fresh context.
 func c13LeakProbe(c *Ctx, when string) {
-	const probe = `<%= if (leakprobe) { %>leaked<% } else { %>clean<% } %>|<%= contentOf("leakblock") { %>default<% } %>|<%= len("ab") %>`
+	const probe = `<%= if (leakprobe) { %>leaked<% } else { %>clean<% } %>|<%= contentOf("leakblock") { %>default<% } %>|<%= len("ab") %>|<%= if (println) { %>p<% } %><%= if (print) { %>q<% } %>`
 	c.Eval("leakprobe:" + when)
 	o := guarded(5*time.Second, func() (string, error) { return plush.Render(probe, plush.NewContext()) })
-	if o.Out != "clean|default|2" || o.IsErr {
-		c.Fail("state-outlives-render", fmt.Sprintf("%s, rendered with a fresh context %s: (%q, %v), expected \"clean|default|2\"", probe, when, o.Out, o.Err),
+	if o.Out != "clean|default|2|" || o.IsErr {
+		c.Fail("state-outlives-render", fmt.Sprintf("%s, rendered with a fresh context %s: (%q, %v), expected \"clean|default|2|\"", probe, when, o.Out, o.Err),
 			map[string]interface{}{"gen": "c13LeakProbe", "source_text": probe, "observed": o})
 	}
 }
